@@ -172,6 +172,9 @@ BAD_EXPR = {
     "placeable-selector": "{ $x } ->\n       *[other] 2\n    ",
     "term-attr-placeable": "-term.attr",
     "positional-after-named": "FOO(x: 1, 2)",
+    "positional-msgref-after-named": "FOO(x: 1, msg)",
+    "positional-var-after-named": "FOO(x: 1, $v)",
+    "positional-after-named-term": "-term(x: 1, msg)",
     "dup-named": "FOO(x: 1, x: 2)",
     "lowercase-callee": "foo()",
     "lowercase-callee2": "Foo(1)",
@@ -287,7 +290,7 @@ def damage_cases(rng, n):
 class C03(Base):
     ID = "C03"
     AREA = "parse"
-    LEMMA_FILES = ["FluentProofs/ParserLoops.lean"]
+    LEMMA_FILES = ["FluentProofs/ParserLoops.lean", "FluentProofs/ParserLines.lean", "FluentProofs/ParserBasics.lean", "FluentProofs/ParserHoareEntry.lean"]
     RULE = ("the C01 generator mix (accounting clauses and the admission predicate recomputed on every output of both "
             "parsers) plus the damage generator: random well-formed resource x entry index x 23 violation kinds (the "
             "documented ones) x 7 placements (first line, continuation line, nested placeable, call argument, variant "
